@@ -45,3 +45,39 @@ def c20_numpy_repr_parfiles(v):
             and r.get('numpy_input') is True and r.get('error') == 'NameError'
             and "'np'" in r.get('message', '')
             and (r.get('xstyle') == 'array' or r.get('ystyle') == 'npfloat'))
+
+
+@predicate
+def c17_and_nonidempotent(v):
+    """every member that still changes the returned vector is non-idempotent there"""
+    r = v['record']
+    if not r.get('clause', '').startswith('and:success implies every member leaves the result unchanged'):
+        return False
+    flags = r.get('violated_members_idempotent_at_result')
+    return bool(flags) and not any(flags)
+
+
+@predicate
+def c16_impose_as_offset_drift(v):
+    """idempotence failure of impose_as with a non-zero offset where twice-once is a whole multiple of the offset"""
+    r, d = v['record'], v['desc']
+    if not r.get('clause', '').startswith('idem:') or d.get('decorator') != 'impose_as':
+        return False
+    off = d.get('offset')
+    if not off:
+        return False
+    once, twice = r.get('once'), r.get('twice')
+    if not once or not twice or len(once) != len(twice):
+        return False
+    touched = set(i for p in d.get('pairs', []) for i in p)
+    moved = False
+    for i, (a, b) in enumerate(zip(once, twice)):
+        if a == b:
+            continue
+        if i not in touched:
+            return False
+        q = (b - a) / off
+        if abs(q - round(q)) > 1e-9 or round(q) == 0:
+            return False
+        moved = True
+    return moved
